@@ -170,6 +170,15 @@ class FsScenario(Scenario):
             obs = run.build()
             wp = run.watch_path()
             obs.schedule(run.handlers[0], wp, recursive=run.recursive)
+            tk = case["watch"].get("twin_kind")
+            if tk is not None:
+                # the same directory scheduled a second time on the same observer, given in the other path type
+                import os as _os
+
+                h1 = run.H(1)
+                run.handlers.append(h1)
+                wp2 = _os.fsencode(str(wp) if not isinstance(wp, (str, bytes)) else wp) if tk == "bytes" else _os.fsdecode(str(wp) if not isinstance(wp, (str, bytes)) else wp)
+                obs.schedule(h1, wp2, recursive=run.recursive)
             tf = case["watch"].get("twin_filter")
             if tf is not None:
                 import watchdog.events as wev
@@ -585,6 +594,8 @@ class C19(FsScenario):
         w["root_kind"] = cfg.choice(["str", "bytes", "path"])
         w["spelling"] = cfg.choice(["abs", "rel", "slash", "reldot", "dot", "dslash"])
         w["backend"] = cfg.choice(["inotify", "inotify", "polling"])
+        if cfg.random() < 0.3:
+            w["twin_kind"] = "str" if w["root_kind"] == "bytes" else "bytes"
         return w
 
     def judge(self, run, res, sim, verdict):
